@@ -506,7 +506,7 @@ def shapes_bounded_instance():
     from pb_bss.extraction import beamformer as bf
 
     def make(B):
-        return {'fn': B.choose('fn', ['mvdr', 'mvdr', 'lcmv', 'souden', 'wmwf']), 'D': B.choose('D', [2, 3, 4, 6, 8]), 'F': B.choose('F', ['1', 'D', '5', '32']),
+        return {'fn': B.choose('fn', ['mvdr', 'mvdr', 'lcmv', 'souden', 'wmwf', 'souden-auto', 'wmwf-auto']), 'D': B.choose('D', [2, 3, 4, 6, 8]), 'F': B.choose('F', ['1', 'D', '5', '32']),
                 'K': B.choose('K', [None, 1, 2, 3]), 'cond': B.choose('cond', [1e1, 1e3, 1e6]), 'mu': B.choose('mu', [0, 0.0, 0.5, 1.0, 100.0]),
                 'seed': B.choose('seed', list(range(5000))), 'd': B.given('d', np.zeros(1)),
                 'real': B.choose('real', ['none', 'none', 'steering', 'noise', 'both'])}
@@ -543,6 +543,20 @@ def shapes_bounded_instance():
             sig = rng.uniform(0.5, 2.0, size=(F,))
             Px = sig[:, None, None] * a[:, :, None] * np.conj(a[:, None, :])
             ref = int(rng.randint(0, D))
+            if fn.endswith('-auto'):
+                # automatic reference channel; steering vectors may have a silent microphone (zero coefficient) and the level of the
+                # target relative to the noise is arbitrary (output SNR above or below 0 dB)
+                if rng.rand() < 0.5:
+                    a[:, int(rng.randint(0, D))] = 0
+                sig = sig * 10.0 ** rng.uniform(-4, 2)
+                Px = sig[:, None, None] * a[:, :, None] * np.conj(a[:, None, :])
+                mu = inp['mu'] if fn == 'wmwf-auto' else 0.0
+                res.update(a=a, Px=Px, mu=mu)
+                if fn == 'souden-auto':
+                    res['w'] = bf.get_mvdr_vector_souden(Px, Pn)
+                else:
+                    res['w'] = bf.get_wmwf_vector(Px, Pn, distortion_weight=mu)
+                return res
             res.update(a=a, Px=Px, ref=ref)
             if fn == 'souden':
                 res['w'] = bf.get_mvdr_vector_souden(Px, Pn, ref_channel=ref)
@@ -587,6 +601,26 @@ def shapes_bounded_instance():
                 for k in range(a.shape[0]):
                     ok &= bool(abs(np.conj(w[f]) @ a[k, f] - r[k]) < 1e-6 * max(1.0, abs(r[k])))
             yield 'every-linear-constraint-met', ok
+        elif fn.endswith('-auto'):
+            Px, mu = out['Px'], out['mu']
+            yield 'shape', bool(w.shape == (F, D))
+            if w.shape != (F, D):
+                return
+            # candidates for every reference channel in closed form; the library criterion: sum_f w^H Phi_x w / sum_f w^H Phi_n w
+            cand, crit = [], []
+            for r in range(D):
+                wr = np.empty((F, D), dtype=complex)
+                for f in range(F):
+                    M = np.linalg.solve(Pn[f], Px[f])
+                    wr[f] = M[:, r] / (np.trace(M) + mu)
+                num = np.real(np.einsum('fa,fab,fb->', np.conj(wr), Px, wr))
+                den = np.real(np.einsum('fa,fab,fb->', np.conj(wr), Pn, wr))
+                cand.append(wr)
+                crit.append(num / max(den, np.finfo(float).tiny))
+            best = max(crit)
+            hit = [r for r in range(D) if np.allclose(w, cand[r], rtol=1e-5, atol=1e-300 + 1e-8 * np.max(np.abs(cand[r])))]
+            yield 'returned-vector-is-the-filter-of-some-reference-channel', bool(hit)
+            yield 'chosen-reference-maximises-the-output-snr-criterion', bool(hit and max(crit[r] for r in hit) >= best * (1 - 1e-6))
         else:
             a, Px, refc = out['a'], out['Px'], out['ref']
             yield 'shape', bool(w.shape == (F, D))
